@@ -244,6 +244,10 @@ func (r *intraProxyStreamReceiver) Run(ctx context.Context, shardManager ShardMa
 	// Ensure we can cancel Recv() by canceling the context when tearing down
 	ctx, cancel := context.WithCancel(ctx)
 	r.cancel = cancel
+	// Whatever ends this receiver also ends its stream. In particular a receiver that was pruned before it got here
+	// (nobody could call r.cancel yet, only its shutdown handle was tripped) must not leave the stream it is about to
+	// open behind: the peer would keep serving it for ever.
+	defer cancel()
 
 	client := adminservice.NewAdminServiceClient(conn)
 	streamClient, err := client.StreamWorkflowReplicationMessages(ctx)
